@@ -57,6 +57,8 @@ PARAM_SETS = [
     dict(dt=1.0, Q=1.0, tau=20.0, tau_d=20.0, tau_r=5.0, ju=0.5, ob=-7.5),
     dict(dt=0.5, Q=-2.5, tau=7.3, tau_d=7.3, tau_r=2.0, ju=1.25, ob=3.0),
     dict(dt=1.3, Q=0.7, tau=2.0, tau_d=20.0, tau_r=7.3, ju=-0.3, ob=0.125),
+    # the documented default out-of-bounds current (0.0) and a step time that is not representable in binary
+    dict(dt=0.3, Q=2.0, tau=5.0, tau_d=9.0, tau_r=1.5, ju=0.75, ob=0.0),
 ]
 
 
@@ -261,7 +263,7 @@ def run(tier: str, seed: int) -> int:
         "numeric agreement outside the dyadic recipe is rtol 1e-5 / atol 1e-6 relative to the magnitude of the terms",
     ]
     if tier == "quick":
-        gens = [("gen-T3", consts(ALL, 3, (0, 8, 6)), 12, 48)]
+        gens = [("gen-T3", consts(ALL, 3, (0, 8, 6)), 16, 110)]
     else:
         gens = [("gen-T3", consts(ALL - {"dplus"}, 3, (0, 4, 8, 6)), 40, None),
                 ("gen-dplus-T2", consts({"dplus"}, 2, (0, 8, 6)), 40, None),
@@ -319,7 +321,7 @@ def run(tier: str, seed: int) -> int:
     chk.extra["canary_replay_mismatches"] = len(mism)
     chk.note(f"canary: deviating replay rejected ({len(mism)} mismatches)")
     # ---- B
-    traces = random_traces(rng, 64 if tier == "quick" else 800, steps=28 if tier == "quick" else 40)
+    traces = random_traces(rng, 160 if tier == "quick" else 800, steps=28 if tier == "quick" else 40)
     if not traces:
         chk.note("dyadic recipe unavailable: no traces")
     else:
